@@ -81,6 +81,8 @@ def run_case(case, ses):
             kind = 'robust-' + (row['uset'].kind if row['uset'] is not None else 'det')
         label = '%s/%s' % (spec['name'], row['label'])
         core = not (row['uset'] is not None and row['uset'].kind in ('mixed', 'other'))
+        if spec['name'].startswith('rand') and row['uset'] is not None and row['uset'].kind != 'poly':
+            core = False     # nonlinear rows of seeded random members are stretch obligations (curated members stay core)
         res, model = discharge_row(ses, cm, vs, P, blocks, row, label, kind, eps, extra, core=core,
                                    sample=dict(model=spec['name'], row=str(row['cons'])[:160],
                                                set=(row['uset'].kind if row['uset'] else None),
